@@ -258,6 +258,8 @@ class C9:
                         del st[dl]
             return st
 
+        from .flow import threaded_successors
+        tsucc = threaded_successors(b)
         ins = {0: {}}
         work = [0]
         outs = {}
@@ -269,9 +271,7 @@ class C9:
             if outs.get(bi) == out:
                 continue
             outs[bi] = out
-            for d in cfg.succ[bi]:
-                if b.blocks[d]["cleanup"]:
-                    continue
+            for d in tsucc.get(bi, ()):
                 cur = ins.get(d)
                 if cur is None:
                     ins[d] = dict(out)
